@@ -284,10 +284,19 @@ def r5_trailing_slash(ctx):
     return out
 
 
+def r6_kernel_errors(ctx):
+    """'the outcome is the same with the kernel and the emulated procfs resolver' includes failures: where a system
+    call of the emulated walk fails, the caller sees that failure (the kernel resolver would have hit the same one),
+    not an errno the walk makes up for it."""
+    from .c04 import error_swaps
+    return error_swaps(ctx, "C07.R6", lambda b: b.file in ("src/resolvers/procfs.rs", "src/procfs.rs"))
+
+
 RULES = [
     ("C07.R5", r5_trailing_slash, 1, False),
     ("C07.R1", r1_walk, 5, False),
     ("C07.R2", r2_forced_nofollow, 3, False),
     ("C07.R3", r3_creation_flags, 4, False),
     ("C07.R4", r4_follow_last_only, 4, False),
+    ("C07.R6", r6_kernel_errors, 1, False),
 ]
